@@ -302,7 +302,8 @@ where
     } else {
         (2..=if thorough { 16 } else { 13 }).collect()
     };
-    let lcs: Vec<Option<(usize, usize, bool)>> = if S::NAME == "BRK" { vec![None] } else { vec![None, Some((80, 4, true)), Some((128, 8, false))] };
+    // the last ones: keys WITHOUT the well-formedness check at a low security level (few column openings: the sqrt regime starts early)
+    let lcs: Vec<Option<(usize, usize, bool)>> = if S::NAME == "BRK" { vec![None, Some((128, 2, false))] } else { vec![None, Some((80, 4, true)), Some((128, 8, false)), Some((40, 2, false)), Some((40, 2, true))] };
     let mut comm_sizes: Vec<usize> = Vec::new();
     for (s, lc) in sizes.iter().flat_map(|s| lcs.iter().map(move |l| (*s, *l))) {
         let id = format!("{}/size/N={}/lc={:?}", S::NAME, if S::FAM == Fam::Uni { s } else { 1 << s }, lc);
